@@ -6,7 +6,7 @@
    repeated-property consistency): the former _refuted theorems are gone, the statements below are at
    full strength over the models of the repaired code. *)
 From Coq Require Import List ZArith NArith Bool.
-From Scalibr Require Import Writers.GoBytes Writers.PomProps Writers.PkgJson Writers.PomDecl Writers.PomWriter Writers.Proofs.
+From Scalibr Require Import Writers.GoBytes Writers.PomProps Writers.PkgJson Writers.PomDecl Writers.PomTokens Writers.PomWriter Writers.Proofs.
 Import ListNotations.
 Open Scope N_scope.
 
@@ -340,3 +340,54 @@ Example pom_decl_multi_example :
   option_map (fun c' => map (fun x => snd x) (eff_all c')) (write_chain ex_chain2 ex_pups4) =
   Some [[57]; [51;46;49]; [49;46;57;45;106;114;101]; [55]].
 Proof. split; vm_compute; reflexivity. Qed.
+
+(* ================================================================== pom.xml writer, token level *)
+(* PomTokens.v: the writer as a transformer of the XML token stream (names/texts interned), copying every token
+   except the content of a <version> element with a <dependency>/<parent> ancestor (re-encoded from its text) and
+   the content of an addressed direct child of <properties>. The decoder/encoder pair is a parameter with the one
+   hypothesis decode (encode toks) = toks (the harness decodes every written file and compares with the model's
+   tokens, which checks the hypothesis on each case). Which elements are addressed comes from the declaration
+   level. NOT covered: the inserted dependencyManagement entries (cases with added requirements). *)
+
+(* output tokens = input tokens except inside the rewritten <version> elements and the addressed <properties>
+   children: after removing those contents the streams are equal -- any decisions, any input *)
+Theorem pom_tokens_preserved :
+  forall (decode : bytes -> list tok) (encode : list tok -> bytes),
+  (forall toks, decode (encode toks) = toks) ->
+  forall tbl vdec pdec input,
+    stripped pdec (decode (write_bytes decode encode tbl vdec pdec input)) = stripped pdec (decode input).
+Proof. intros decode encode H. apply (write_bytes_preserved decode encode H). Qed.
+Print Assumptions pom_tokens_preserved.
+
+(* no updates: the written file has the same token sequence, provided every <version> of a dependency/parent is
+   spelled plainly (at most one text, nothing else inside) *)
+Theorem pom_no_updates_identity :
+  forall (decode : bytes -> list tok) (encode : list tok -> bytes),
+  (forall toks, decode (encode toks) = toks) ->
+  forall tbl input, plain (decode input) = true -> decode (write_bytes decode encode tbl [] [] input) = decode input.
+Proof. intros decode encode H. apply (write_bytes_identity decode encode H). Qed.
+Print Assumptions pom_no_updates_identity.
+
+(* ... and without that proviso it is refuted: <dependency><version>1.0<!-- pinned --></version></dependency>
+   loses the comment although nothing is updated (writeString re-encodes the element from its text) *)
+Theorem pom_comment_inside_version_refuted :
+  exists l, plain l = false /\ write_tokens [] [] [] l <> l /\
+            write_tokens [] [] [] l = [TStart K_DEPENDENCY 1; TStart K_VERSION 2; TText 3; TEnd K_VERSION 5; TEnd K_DEPENDENCY 6].
+Proof.
+  exists [TStart K_DEPENDENCY 1; TStart K_VERSION 2; TText 3; TComment 4; TEnd K_VERSION 5; TEnd K_DEPENDENCY 6].
+  split; [reflexivity|]. split; [vm_compute; discriminate|reflexivity].
+Qed.
+Print Assumptions pom_comment_inside_version_refuted.
+
+(* non-vacuity: a dependency whose version is addressed (3 -> 9), one that is not, a property that is addressed *)
+Example pom_tokens_example :
+  let l := [TStart 0 10; TStart K_PROPERTIES 11; TStart 0 12; TText 20; TEnd 0 13; TEnd K_PROPERTIES 14;
+            TStart K_DEPENDENCY 1; TStart K_VERSION 2; TText 3; TEnd K_VERSION 5; TEnd K_DEPENDENCY 6;
+            TStart K_DEPENDENCY 1; TStart K_VERSION 2; TText 7; TEnd K_VERSION 5; TEnd K_DEPENDENCY 6; TEnd 0 15] in
+  plain l = true /\
+  write_tokens [] [DSet (Some 9); DKeep] [DSet (Some 21)] l =
+           [TStart 0 10; TStart K_PROPERTIES 11; TStart 0 12; TText 21; TEnd 0 13; TEnd K_PROPERTIES 14;
+            TStart K_DEPENDENCY 1; TStart K_VERSION 2; TText 9; TEnd K_VERSION 5; TEnd K_DEPENDENCY 6;
+            TStart K_DEPENDENCY 1; TStart K_VERSION 2; TText 7; TEnd K_VERSION 5; TEnd K_DEPENDENCY 6; TEnd 0 15] /\
+  write_tokens [] [] [] l = l.
+Proof. vm_compute. repeat split; reflexivity. Qed.
